@@ -209,6 +209,32 @@ CHECKS = {
         ref="6/C20"),
 }
 
+# scope added by the third and fourth rounds of seeded changes (DESIGN.md 12.6)
+NOTE_ADD = {
+    "C01": "k-medoids with zero sweeps; estimators reconfigured through attributes / set_params before fit; runs of 150-170 frames with more than 128 initial centers judged by Trace_ClusterLarge.tla",
+    "C02": "fractional off-data centers next to integer data; estimators reconfigured through attributes / set_params before fit",
+    "C03": "unsigned storage with ids at the top of the type (uint8 / uint16); periodic trajectories of up to 2.2 million frames with closed-form counts (CountsPeriodic.tla)",
+    "C04": "prior_counts as a matrix (non-symmetric ones included, SymmetricModel); metastable pairs with 2^28 self-counts",
+    "C05": "index operands in every integer form incl. unsigned, numpy scalars and 0-d arrays; rows of 300..40000 elements; flatten() must hand out a copy",
+    "C06": "Invert (~a); element type of rows / flat data observed after every step; boolean twin array (~mask); flatten() must hand out a copy",
+    "C07": "rare-state and drift-ladder chains (stiff cases compared at 1e-6); chains of 999..1200 states with closed forms (LineChain.tla); clauses evaluated without expected values on a 5200-state chain with 3333 sinks",
+    "C08": "populations passed positionally; sparse arrays; conservation / definition clauses evaluated without expected values on a 5200-state chain with 3333 sinks",
+    "C09": "k-medoids with zero sweeps; estimators reconfigured before fit",
+    "C10": "predict asked in a type other than the fitted one; reassign / batch_reassign over tiny mdtraj trajectories",
+    "C11": "narrow integer counts with scaled thresholds; embedding into 19 states; 2^60 self-counts on one state of every component",
+    "C12": "caps of 300 / 1000 sweeps on a slowly converging matrix; both implementations must agree on whether the cap was exhausted (WarnAlike)",
+    "C13": "thread teams smaller than omp_get_max_threads (OMP_THREAD_LIMIT, OMP_DYNAMIC); wide rows; a kernel outside the access model of Prange.tla is left to the replay",
+    "C14": "assembly with more than 2^20 elements per rank; h5 files with unpadded table names; load_trajectory_as_striped with per-file arguments",
+    "C15": "non-increasing atom selections; rectangular arrays beyond 2^16 rows; trajectory files rewritten under the same name between two calls",
+    "C16": "max_n_states in the configuration round trip; populations down to 1e-6 through save / load; from_assignments; TrimMapping / estimator life cycle / resampling parts (TrimMapping.tla, MSMLife.tla, Resample.tla)",
+    "C17": "networks in units of 2^-60 and next to an unreachable edge of 2^62; thorough tier: a flow that decomposes into more than 10^4 pathways (clauses evaluated on the result)",
+    "C18": "pooled sessions of 18 x 65000 frames; trajectories as tuples / generators / iterators; workers under the poisoning allocator",
+    "C19": "history = modules imported before the call (gradual-underflow probes); same objects overwritten in place and passed again",
+    "C20": "library callers through the real radians -> degrees conversion (float32, seam angles 359.999994 and psi 99.999985); RotamerFeaturizer.fit with 1 and 2 workers; label injection x 65536 for the transition bookkeeping; order / disorder bookkeeping (Disorder.tla)",
+}
+for _k, _v in NOTE_ADD.items():
+    CHECKS[_k]["note"] += "; later additions: " + _v
+
 ENGINES = [
     dict(name="tlc", path="/opt/veriftools/tla/tla2tools.jar", kind_free_text="explicit-state model checker for the TLA+ modules in /verif/specs"),
     dict(name="replay-drivers", path="/verif/props", kind_free_text="per-property drivers: run TLC, parse emitted behaviours, replay them into a scratch build of /repo, or record traces from the real code and have TLC validate them"),
